@@ -443,7 +443,38 @@ class Machine:
         got_ev = [(us_of(s.date), str(s.event)) for s in got if s.event is not None and off_sample(us_of(s.date))]
         if len(ref_ev) != len(got_ev) or any(abs(a[0] - b[0]) > 2 or a[1] != b[1] for a, b in zip(ref_ev, got_ev)):
             raise Violation("listener-reuse", f"events with re-used listener objects {got_ev[:6]} differ from a fresh run {ref_ev[:6]}")
-        return ["iter_listeners", f"events:{min(len(got_ev), 3)}"]
+        tags = ["iter_listeners", f"events:{min(len(got_ev), 3)}"]
+        # A yielded state is an orbit in its own right: taken as the start of a new iteration (it shares the
+        # propagator object, and, for an event state, carries an `event`), it must give what a freshly built
+        # orbit holding the same numbers gives - same samples, same events, no event on plain samples.
+        if self.kind in ("kepler", "j2") and got:
+            from beyond.orbits import Orbit
+
+            evs = [s_ for s_ in got if s_.event is not None]
+            derived = evs[0] if evs else got[len(got) // 2]
+            if hasattr(derived, "iter"):
+                span = dict(stop=timedelta(microseconds=12 * step), step=timedelta(microseconds=step))
+                twin = Orbit(np.array(derived.base, float), derived.date, derived.form.name, derived.frame,
+                             type(self.obj.propagator)())
+                a = list(derived.iter(listeners=[NodeListener(), ApsideListener()], **span))
+                b = list(twin.iter(listeners=[NodeListener(), ApsideListener()], **span))
+                t0 = us_of(derived.date)
+                grid = [t0 + k * step for k in range(13)]
+
+                def evs_of(states):
+                    return [(us_of(s_.date), str(s_.event)) for s_ in states
+                            if s_.event is not None and all(abs(us_of(s_.date) - w) > 5 for w in grid)]
+
+                ea, eb = evs_of(a), evs_of(b)
+                plain_a = [us_of(s_.date) for s_ in a if s_.event is None]
+                plain_b = [us_of(s_.date) for s_ in b if s_.event is None]
+                if len(ea) != len(eb) or any(abs(x[0] - y[0]) > 2 or x[1] != y[1] for x, y in zip(ea, eb)) \
+                        or len(a) != len(b) or len(plain_a) != len(plain_b):
+                    raise Violation("derived-start", f"iteration restarted from a yielded state (event: {derived.event}) gives "
+                                    f"{len(a)} states, {len(plain_a)} without event, events {ea[:5]}; a freshly built orbit with the "
+                                    f"same numbers gives {len(b)} states, {len(plain_b)} without event, events {eb[:5]}")
+                tags.append("restart-from-event-state" if evs else "restart-from-sample")
+        return tags
 
     def op_rebind(self, op):
         if self.kind == "ephem":
@@ -698,7 +729,7 @@ def check(case):
     m = Machine(case)
     tags = m.run()
     kinds = {t for t in tags if t in ("propagate", "iter_range", "iter_dates", "iter_daterange", "ephem", "iter_listeners", "iter_own",
-                                       "rebind", "rebind_other", "partial_consume", "kick:A", "kick:B", "kick:C", "user_change:form", "user_change:frame", "propagate-again")}
+                                       "rebind", "rebind_other", "partial_consume", "kick:A", "kick:B", "kick:C", "user_change:form", "user_change:frame", "propagate-again", "restart-from-event-state")}
     # an op that failed as a listed known finding and after which the history went on also counts:
     # what follows it runs on objects that have been through a failing call
     special = {"backward", "step-not-dividing", "shorter-than-interp-order", "stop-off-grid", "known-finding-op"} & set(tags)
